@@ -402,7 +402,14 @@ class Exec:
 
     def call(self, callee, vals, env, pc, cont, where='', raw=None):
         if 'as FromResidual<' in callee and callee.endswith('::from_residual'):
-            return cont(vals[0], env, pc)
+            mm = re.match(r'<Result<.*, ([^,<>]+(?:<.*>)?)> as FromResidual<Result<Infallible, ([^,<>]+(?:<.*>)?)>>>::from_residual$', callee)
+            r = vals[0]
+            if mm and mm.group(1).strip() != mm.group(2).strip() and isinstance(r, Enum) and r.tag == 'Err':
+                conv = '<%s as From<%s>>::from' % (mm.group(1).strip(), mm.group(2).strip())
+                if self.summary_key(conv) is not None or self.mir.resolve(conv) is not None:
+                    return self.call(conv, [r.fields[0]], env, pc, lambda e, env2, pc2: cont(Enum('Err', (e,)), env2, pc2), where=where)
+                return cont(Enum('Err', (Opaque('converted error'),)), env, pc)
+            return cont(r, env, pc)
         if callee.endswith(' as Try>::branch') and callee not in self.S:
             r = vals[0]
             if isinstance(r, Enum):
@@ -410,6 +417,11 @@ class Exec:
                 return cont(Enum('Break', (r,)), env, pc)
             if isinstance(r, Opaque):
                 cont(Enum('Continue', (Opaque('try-ok'),)), env, pc); cont(Enum('Break', (Enum('Err', (Opaque('try-err'),)),)), env, pc); return
+        mm = re.match(r'<(.+) as Into<(.+)>>::into$', callee)
+        if mm and callee not in self.S:
+            conv = '<%s as From<%s>>::from' % (mm.group(2).strip(), mm.group(1).strip())
+            f = self.mir.resolve(conv)
+            if f is not None: return self.run_fn(f, vals, env, pc, cont)
         key = self.summary_key(callee)
         if key is not None:
             self.used_summaries.add(key)
@@ -604,6 +616,7 @@ class Exec:
         mm = re.match(r'(\w+)\((.*)\)$', rhs)       # tuple struct
         if mm and re.match(r'[A-Z]', mm.group(1)):
             d = {i: op(a) for i, a in enumerate(split_top(mm.group(2)))}; d['__ty'] = mm.group(1); return d
+        if re.fullmatch(r'[A-Z][A-Za-z0-9]*', rhs): return Enum(rhs)       # bare unit variant (e.g. std ErrorKind)
         return self.operand(fid, env, rhs)
 
     def is_signed(self, fn, fid, tok):
